@@ -140,11 +140,22 @@ theorem C03_history_build (F : BodyFn) (P : Project) (cfg : Cfg) (w : World) (g 
   obtain ⟨h, h1, h2⟩ := hrows v hv
   exact ⟨h, by rw [hstable v hv, h1], by rw [buildLoop_db_frame t pre hpre htpre v]; exact h2⟩
 
-/-- **C03_upath_touch** (node kind outside M6: a `UPath` with a protocol). Its state does not look at the modification time:
-a touch-only edit — same ETag, same content, any new time stamp — leaves the state, hence `RowsMatch`, as it was. (The constant
-used when the file system has no ETag is `Generated.upathNoEtagState`, read from `nodes._get_state` by `harness/extract_state.py`;
-replacing it by something time-dependent breaks this proof.) -/
-theorem C03_upath_touch (f : UFile) (mtime' : Nat) : upathState { f with mtime := mtime' } = upathState f := rfl
+open Pytask.Hash in
+/-- **C03_upath_touch** (node kind outside M6: a `UPath` with a protocol). A touch-only edit gives the file a new modification time
+and leaves its bytes (and its ETag, if the file system has one) alone. The state does not change: with an ETag it *is* the ETag;
+without one it is `hash_path(path, mtime)`, whose memo is keyed by the time but whose value is the digest of the bytes (the local-file
+lemma of C12, for memos coherent with the file system before and after the touch). Hence `RowsMatch` survives the touch and the task
+is not executed. (Which expression the code uses is `Generated.upathNoEtagKind`, read from `nodes._get_state`.) -/
+theorem C03_upath_touch (sha md5 : Bytes → Str) (memo memo' : Memo) (W W' : Hash.World)
+    (hc : MemoCoherent sha md5 memo W) (hc' : MemoCoherent sha md5 memo' W')
+    (p : Str) (etag : Option Str) (mh mh' : Int) (c : Bytes)
+    (hp : W p = some (mh, c)) (hp' : W' p = some (mh', c)) :
+    (upathStateOf sha md5 memo p (some (etag, mh, c))).2 = (upathStateOf sha md5 memo' p (some (etag, mh', c))).2 := by
+  cases etag with
+  | some e => rfl
+  | none =>
+    rw [upathStateOf_noEtag, upathStateOf_noEtag, stateOfFile_coherent sha md5 memo W hc p mh c hp,
+        stateOfFile_coherent sha md5 memo' W' hc' p mh' c hp']
 
 /-! ## non-vacuity (project `exP`: input 10 → task 0 → 20 → task 1 → 21, 22; see `Lemmas/EngineExample.lean`) -/
 
@@ -191,5 +202,14 @@ example : (protocol exF exP' (modifyDag exP' (baseGraph exP')) {} { w := exW3 } 
     rw [show exT0.id = 0 from rfl, hn2] at hv
     simp only [List.mem_cons, List.mem_nil_iff, or_false] at hv
     rcases hv with rfl | rfl | rfl <;> exact ⟨by decide, by decide⟩
+
+open Pytask.Hash in
+/-- `C03_upath_touch` on concrete data: first state call with an empty memo at time 1, then a touch (time 2) and a state call with
+the memo the first call left: both give the digest of the unchanged bytes. -/
+example (sha md5 : Bytes → Str) :
+    (upathStateOf sha md5 {} ['i', 'n'] (some (none, 1, [65]))).2 =
+    (upathStateOf sha md5 {} ['i', 'n'] (some (none, 2, [65]))).2 := by
+  rw [upathStateOf_noEtag, upathStateOf_noEtag, stateOfFile_some, stateOfFile_some]
+  simp only [Memo.get_empty]
 
 end Pytask
